@@ -5,6 +5,11 @@ ROOT = os.path.dirname(os.path.dirname(os.path.abspath(__file__)))
 
 # id -> (level category, technique, level text, level note, design ref)
 CHECKS = {
+ "C06": ("model_checking",
+   "explicit-state BFS over the product of the real mutator and the real incremental collector (per-object mark/sweep micro-steps), invariant checked in every state",
+   "For each program of a purpose-written family the search explores every interleaving of single VM instructions with single collector steps (start cycle, mark one grey object, sweep one object, per green thread, up to 2/3 cycles per thread) on the real VM in manual-GC + quarantine mode; an independent reachability walk must find no reclaimed reachable object in any state, no access may touch a reclaimed object, and every maximal path must produce the outcome of the collection-disabled run. Any real pacing is a coarsening of these micro-steps.",
+   "Bounded: the listed programs (20-130 instructions each) and 2/3 cycles per thread; hooks H3 (feature verif) are trusted to call the real start_mark_phase/process_gray/sweep and to quarantine instead of free; state merging on (mutator step count, collector fingerprint) is checked at every merge.",
+   "DESIGN.md §3 C06"),
  "C15": ("exploration",
    "exhaustive boundary-grid enumeration (operands x operators x operand forms) on the real compiler+VM against an i128 reference model",
    "Every pair from a 60-value boundary grid is crossed with every integer operator and every operand form (variable/literal on each side, compound assignment), plus unary minus; each case is compiled (dispatcher-batched) and run on the real VM in a fresh runtime and compared with exact i128 arithmetic followed by a range check.",
